@@ -171,6 +171,37 @@ fn occupancy_cases(cw: &mut CaseWriter, rng: &mut Rng, n: usize, lider: bool) {
     }
 }
 
+/// weekly schedules of generated HULC projects: the written 7 day names against the runs the conversion produces
+fn weekrun_cases(cw: &mut CaseWriter, rng: &mut Rng, n: usize) {
+    use hulc::bdl::Schedule;
+    for i in 0..n {
+        let p = crate::bdlgen::gen_proj(rng, &crate::bdlgen::GenOpts { rotated_spaces: false, polygon_outlines: i % 2 == 1 });
+        let text = crate::bdlgen::print_proj(&p);
+        let data = match guarded(|| hulc::bdl::Data::new(&text)) {
+            Outcome::Ok(d) => d,
+            _ => continue,
+        };
+        let weeks: Vec<(String, Vec<String>)> = data.schedules.iter().filter_map(|s| match s {
+            Schedule::Week(w) => Some((w.name.clone(), w.days.clone())),
+            _ => None,
+        }).collect();
+        let cd = hulc::ctehexml::CtehexmlData { bdldata: data, ..Default::default() };
+        let m = match guarded(|| Model::try_from(&cd)) {
+            Outcome::Ok(m) => m,
+            _ => continue,
+        };
+        for (name, days) in weeks {
+            if let Some(w) = m.schedules.week.iter().find(|w| w.name == name) {
+                let runs: Vec<Value> = w.values.iter().map(|(id, cnt)| {
+                    let dn = m.schedules.day.iter().find(|d| d.id == *id).map(|d| d.name.clone());
+                    json!([dn, cnt])
+                }).collect();
+                cw.write(json!({"op": "weekruns", "label": format!("week:{i}:{name}"), "days": days, "impl": {"runs": runs}}));
+            }
+        }
+    }
+}
+
 pub fn run(args: &Args) -> i32 {
     let mut cw = CaseWriter::new(&args.out, "cases.jsonl");
     let mut rng = Rng::new(args.seed);
@@ -178,6 +209,7 @@ pub fn run(args: &Args) -> i32 {
     yeardays_cases(&mut cw, &mut rng, args.n);
     enddate_cases(&mut cw, &mut rng, if thorough { 400 } else { 40 }, thorough);
     occupancy_cases(&mut cw, &mut rng, args.n / 2, thorough);
+    weekrun_cases(&mut cw, &mut rng.fork(77), if thorough { 300 } else { 30 });
     cw.finish();
     0
 }
